@@ -213,7 +213,7 @@ func runCheck(id, tier string, replay string, patches []string, quiet bool) int 
 	if _, err := strconv.ParseInt(seed, 10, 64); err != nil {
 		seed = "0"
 	}
-	args := []string{"-tier", tier, "-seed", seed, "-known", filepath.Join(verif, "known_findings.json")}
+	args := []string{"-tier", tier, "-seed", seed, "-known", filepath.Join(verif, "known_findings.json") + "," + filepath.Join(verif, "harness", id, "findings.json")}
 	if len(patches) == 0 {
 		args = append(args, "-evidence", filepath.Join(verif, "evidence", id+".json"), "-replaydir", filepath.Join(verif, "replays"))
 	} else {
@@ -347,6 +347,26 @@ func main() {
 	case "manifest":
 		writeManifest()
 		return
+	case "testpatch":
+		// vrun testpatch <diff> <go test args...>: run the repository's own tests with the patch applied through the overlay
+		if len(os.Args) < 4 {
+			die(2, "testpatch <diff> <pkgs...>")
+		}
+		dir, _ := os.MkdirTemp("", "verif-testpatch-")
+		defer os.RemoveAll(dir)
+		ov := map[string]string{}
+		applyPatches(ov, dir, []string{os.Args[2]})
+		b, _ := json.Marshal(map[string]any{"Replace": ov})
+		ovf := filepath.Join(dir, "overlay.json")
+		os.WriteFile(ovf, b, 0o644)
+		args := append([]string{"test", "-vet=off", "-count=1", "-overlay", ovf}, os.Args[3:]...)
+		cmd := exec.Command("go", args...)
+		cmd.Dir = repo
+		cmd.Env = goEnv()
+		cmd.Stdout, cmd.Stderr = os.Stdout, os.Stderr
+		err := cmd.Run()
+		os.RemoveAll(dir)
+		os.Exit(exitCode(err))
 	case "selftest":
 		if len(os.Args) < 3 {
 			die(2, "selftest <ID>")
